@@ -830,6 +830,37 @@ static void wlArena() {
           sim_fail(cls, "%s: element %zu differs (buffers %zu)", what, i, nb);
         }
     };
+    // what copy/assign/move/swap produce is an arena in its own right: growing it (across buffer
+    // boundaries) must hand out the next indices, default-constructed, and leave the copied part intact
+    auto growDerived = [&](dispenso::ConcurrentObjectArena<Cell>& x, const char* what) {
+      size_t before = (size_t)x.size();
+      size_t delta = 1 + (size_t)pick((uint32_t)(2 * buffSize + 2));
+      size_t start = x.grow_by(delta);
+      if (start != before || (size_t)x.size() != before + delta) {
+        snprintf(cls, sizeof cls, "arena:%s:then-grow:wrong-range", what);
+        sim_fail(cls, "%s then grow_by(%zu): returned %zu, size %zu -> %zu (buffers %zu)", what, delta, start, before,
+                 (size_t)x.size(), nb);
+      }
+      for (size_t k = 0; k < delta; ++k)
+        if (x[start + k].v != 0x5EED || x[start + k].w != 0x0BAD) {
+          snprintf(cls, sizeof cls, "arena:%s:then-grow:element-not-default-constructed", what);
+          sim_fail(cls, "%s then grow_by: element %zu holds %x/%x", what, start + k, x[start + k].v, x[start + k].w);
+        }
+      for (size_t i = 0; i < before && i < (size_t)arena.size(); ++i)
+        if (x[i].v != arena[i].v || x[i].w != arena[i].w) {
+          snprintf(cls, sizeof cls, "arena:%s:then-grow:contents-changed", what);
+          sim_fail(cls, "%s then grow_by: element %zu changed (buffers %zu)", what, i, nb);
+        }
+    };
+    {
+      dispenso::ConcurrentObjectArena<Cell> grown(arena);
+      growDerived(grown, "copy-construct");
+      dispenso::ConcurrentObjectArena<Cell> grown2(buffSize);
+      grown2 = arena;
+      growDerived(grown2, "copy-assign");
+      dispenso::ConcurrentObjectArena<Cell> grown3(std::move(grown2));
+      growDerived(grown3, "move-construct");
+    }
     {
       dispenso::ConcurrentObjectArena<Cell> copy(arena);
       same(copy, "copy-construct");
